@@ -43,7 +43,8 @@ typedef struct sch_cfg_s {
   const int *prefix;   /* choices to replay */
   int nprefix;
   int io_points;       /* scheduling point at every journalled VFS call */
-  int hook_points;     /* mask: 1 = H3 (unlocked flag loads), 2 = H4 skip-list publishing stores, 4 = H4 loads */
+  int hook_points;     /* mask: 1 = H3 (unlocked flag loads), 2 = H4 skip-list publishing stores, 4 = H4 loads,
+                          8 = before every cond signal/broadcast */
   long step_max;       /* max scheduling points per execution */
   int starve_default;  /* base scheduler at hand-over points: 0 = lowest id first, 1 = highest id first */
   int allow_spurious;  /* cond-wait may return spuriously as a deviation */
